@@ -227,6 +227,10 @@ def makers(case: dict):  # noqa: ANN201
         if len(p) > 1 and p[1] == "fresh":
             # elements equal by value but distinct objects (ints beyond the small-int cache)
             xs = [10**6 + x * 7 for x in xs]
+        elif len(p) > 1 and p[1] == "nan":
+            # an element that is identical to itself but not equal to itself: the standard
+            # library compares keys by identity first
+            xs = [NAN if x == 1 else x for x in xs]
 
         if key is None:
             return (
@@ -321,6 +325,7 @@ def _collect_sync(mk):  # noqa: ANN001, ANN202
 # False like any other value (sentinel or truthiness confusion inside the implementation
 # shows only with such elements -- seeded change C19-b).  An "odd" case is the same case with
 # every element x replaced by ODD[x % 4]; callbacks that compute on elements are excluded.
+NAN = float("nan")
 ODD = [None, 0, "", False]
 ODD_FNS = {"batched", "chain", "chain_from_iterable", "combinations", "combinations_with_replacement",
            "permutations", "product", "compress", "cycle", "islice", "pairwise", "zip_longest",
@@ -390,6 +395,7 @@ def enumerate_cases(seqs: list[list[int]], short: list[list[int]], full: bool): 
             yield {"fn": "groupby", "xs": xs, "p": [key]}
 
         yield {"fn": "groupby", "xs": xs, "p": ["none", "fresh"]}
+        yield {"fn": "groupby", "xs": xs, "p": ["none", "nan"]}
 
         for op in ("sub", "add"):
             yield {"fn": "starmap", "xs": xs, "p": [op]}
